@@ -35,7 +35,7 @@ def main():
     ms = [m for m in MUTANTS if not sel or m['prop'] in sel or m['name'] in sel]
     from concurrent.futures import ThreadPoolExecutor
     bad = 0
-    with ThreadPoolExecutor(6) as ex:
+    with ThreadPoolExecutor(8) as ex:
         for name, st, out in ex.map(lambda m: run_one(m, verbose), ms):
             print(f'{st:>20}  {name}')
             if st != 'caught':
